@@ -51,6 +51,16 @@ def run_rules(pid, F, tier="quick"):
     mod = importlib.import_module("tmv.rules." + pid.lower())
     ck = Check(pid, tier=tier, quiet=True)
     ctx = Ctx(F, ck, tier)
+    import signal
+
+    def _timeout(signum, frame):
+        raise TimeoutError("rule set %s did not finish within its time budget" % pid)
+    old_handler = None
+    try:
+        old_handler = signal.signal(signal.SIGALRM, _timeout)
+        signal.alarm(int(os.environ.get("TM_RULE_BUDGET_S", "420")))
+    except (ValueError, OSError):
+        old_handler = None     # not in the main thread: no watchdog
     try:
         mod.run(ctx)
         from . import premises
@@ -59,6 +69,10 @@ def run_rules(pid, F, tier="quick"):
         ck.unrecognised("anchor", "-", u.what, site=u.site)
     except Exception as e:
         ck.ob("internal", "-", "checker-error:" + type(e).__name__, False, detail=traceback.format_exc()[-800:])
+    finally:
+        if old_handler is not None:
+            signal.alarm(0)
+            signal.signal(signal.SIGALRM, old_handler)
     known = {f["key"] for f in load_known().get("findings", []) if f.get("property") == pid}
     return [v for v in ck.violations if v["key"] not in known], ck
 
